@@ -170,7 +170,7 @@ def run_establish(ctl: explorer.Ctl, cfg: Dict[str, Any]) -> Dict[str, Any]:
 
     if status != "ok":
         obs["outcome"] = status
-        bad("did-not-finish", f"{status} {val!r}")
+        bad("did-not-finish", f"{status} {core.clean_repr(val)}")
         obs["violations"] = viol
         return obs
     if srv.gets == 0:
@@ -298,7 +298,7 @@ def run_request(ctl: explorer.Ctl, cfg: Dict[str, Any]) -> Dict[str, Any]:
 
     if status != "ok":
         obs["outcome"] = status
-        bad("did-not-finish", f"{status} {val!r}")
+        bad("did-not-finish", f"{status} {core.clean_repr(val)}")
         obs["violations"] = viol
         return obs
     mine = [m for m in got if isinstance(m, dict) and "method" not in m and m.get("id") is not None
@@ -392,7 +392,7 @@ def run_after(ctl: explorer.Ctl, cfg: Dict[str, Any]) -> Dict[str, Any]:
     loop.abandon()
     viol: List[dict] = []
     if status != "ok":
-        return {"outcome": status, "violations": [{"sig": {"class": "did-not-finish", "part": "after"}, "msg": f"cfg={cfg}: {status} {val!r}"}]}
+        return {"outcome": status, "violations": [{"sig": {"class": "did-not-finish", "part": "after"}, "msg": f"cfg={cfg}: {status} {core.clean_repr(val)}"}]}
     norm = [{k: v for k, v in m.items() if v is not None or k == "result"} for m in got2 if isinstance(m, dict)]
     want = [later, {"jsonrpc": "2.0", "method": "notifications/message", "params": {"after": True}}]
     if not (len(norm) == len(want) and all(strict_eq(a, b) for a, b in zip(norm, want))):
@@ -482,7 +482,7 @@ def run_chunks(ctl: explorer.Ctl, cfg: Dict[str, Any]) -> Dict[str, Any]:
     obs: Dict[str, Any] = {"status": status, "variant": cfg["variant"], "cuts": cuts}
     if status != "ok":
         obs["outcome"] = status
-        obs["violations"] = [{"sig": {"class": "did-not-finish", "part": "chunks"}, "msg": f"cfg={cfg}: {status} {val!r}"}]
+        obs["violations"] = [{"sig": {"class": "did-not-finish", "part": "chunks"}, "msg": f"cfg={cfg}: {status} {core.clean_repr(val)}"}]
         return obs
     norm = [{k: v for k, v in m.items() if v is not None or k == "result"} if isinstance(m, dict) else m for m in got]
     if not info.get("entered"):
@@ -609,7 +609,7 @@ def run_exit(ctl: explorer.Ctl, cfg: Dict[str, Any]) -> Dict[str, Any]:
 
     if status != "ok":
         obs["outcome"] = status
-        bad("did-not-finish", f"{status} {val!r}")
+        bad("did-not-finish", f"{status} {core.clean_repr(val)}")
         obs["violations"] = viol
         return obs
     px = info["px"]
